@@ -288,6 +288,35 @@ func checkC19(cx *Ctx, r *Report) {
 			}
 		}
 		r.Check(okFirst && n > 0, "R-VFG", "hostFromForwarded:first", w.FnPos(hf), "returns element 0 of the parsed host list", "hostFromForwarded does not return the first host of the header")
+		// ... and does so whenever a configured header yields a host: the only conditions on the way to that return are
+		// the loop over the configured headers, "the header parsed" and "the list is not empty". A further condition
+		// (or a constant one) makes the IdP ignore a forwarded host it was configured to honour.
+		for _, ret := range returnsOf(hf) {
+			if _, isC := ret.Results[0].(*ssa.Const); isC {
+				continue
+			}
+			bad := ""
+			for _, a := range fx.AtomsAtBlock(ret.Block()) {
+				c := stripNot(a.Cond)
+				if k, isK := c.(*ssa.Const); isK && k.Value != nil {
+					if (k.Value.ExactString() == "true") == a.Neg {
+						bad = "the return of the forwarded host is guarded by a condition that is constantly false"
+					}
+					continue
+				}
+				switch {
+				case a.Op == "LT" && strings.HasPrefix(a.B, "len(") && strings.HasPrefix(a.A, "(phi@"): // loop over the headers
+				case a.Op == "TRUE" && (strings.HasPrefix(a.A, "next@") || strings.Contains(a.A, "#0")) && !strings.Contains(a.A, "ParseParameter"):
+				case a.Op == "NIL" && !a.Neg && strings.HasSuffix(a.A, "httpforwarded.ParseParameter#1"):
+				case a.Op == "EMPTY" && a.Neg && strings.HasSuffix(a.A, "httpforwarded.ParseParameter#0"):
+				case a.Op == "LT" && !a.Neg && a.A == "const:0" && strings.Contains(a.B, "httpforwarded.ParseParameter#0"):
+				case strings.Contains(a.String(), "httpforwarded.ParseParameter"): // another spelling of a test of what was parsed
+				default:
+					bad = "the forwarded host is returned only under " + a.String() + ": a host the configured header carries can be ignored"
+				}
+			}
+			r.Check(bad == "", "R-GUARD", "hostFromForwarded:uses-first-host", w.InstrPos(ret), "returned whenever a configured header parses to a non-empty host list", bad)
+		}
 		// headers consulted: exactly the configured list
 		lh, hs := vf.CallArgSources(matchFnKey(w, "provider.hostFromForwarded"), 1)
 		if len(hs) > 0 {
